@@ -1,5 +1,6 @@
 import RaftVerif.Core.Snap2
 import RaftVerif.Model.Compaction
 import RaftVerif.Proofs.ServerLocal
+import RaftVerif.Proofs.Snapshot
 /-! # C11 — snapshots and compaction never lose history.  Registered: `CP.compactRange_spec`,
 `CP.compactRange_maximal`, `CP.removeOldLogs_all`, `RP.snapshot_coverage`. -/
